@@ -23,6 +23,7 @@ ExpectedAt(c, ev, x) ==
   CASE c.fam = "fixed" -> PropGrad(c, Pos(c, x), SatOf(x))
     [] c.fam = "po2" -> Po2Grads(c, x)
     [] c.fam = "one" -> {G1}
+    [] c.fam = "zo" -> {G1, <<0, 0>>}        \* data-dependent clip range: 1 inside, 0 in the clipped region, nothing else
     [] c.fam = "ref" -> {Norm(ev.r)}
 Expected(c, ev) == ExpectedAt(c, ev, ev.x) \cup (IF Denormal(ev.x) THEN ExpectedAt(c, ev, Zero) ELSE {})
 Verdicts(ev) == LET c == Cf[ev.c] IN
